@@ -552,7 +552,6 @@ package control
 //@   requires t != nil ==> nonnilvals(t.entries)
 //@   modifies *
 //@   at call builtin:append#1 assert entry != nil && entry.refs == 0 && entry.deleting && has(t.entries, key) && t.entries[key] == entry
-//@   ensures forall j int {result[j].entry} :: 0 <= j && j < len(result) ==> result[j].entry != nil && result[j].entry.deleting && result[j].entry.refs == 0
 //@   let e0() = old(t.entries[keys[0]])
 //@   let live0() = len(keys) == 1 && old(has(t.entries, keys[0])) && !old(t.entries[keys[0]].deleting)
 //@   ensures live0() && old(t.entries[keys[0]].refs) >= 2 ==> len(result) == 0 && e0().refs == old(t.entries[keys[0]].refs) - 1 && !e0().deleting
@@ -563,7 +562,6 @@ package control
 //@     invariant $idx == 1 && live0() && old(t.entries[keys[0]].refs) >= 2 ==> len(releases) == 0 && e0().refs == old(t.entries[keys[0]].refs) - 1 && !e0().deleting
 //@     invariant $idx == 1 && live0() && old(t.entries[keys[0]].refs) == 1 ==> len(releases) == 1 && releases[0].entry == e0()
 //@     invariant nonnilvals(t.entries)
-//@     invariant forall j int {releases[j].entry} :: 0 <= j && j < len(releases) ==> releases[j].entry != nil && releases[j].entry.deleting && releases[j].entry.refs == 0
 
 // only the entry recorded by BeginRelease is removed (a tuple re-created meanwhile is left alone)
 //@ func (*udpConnStateTracker).FinalizeRelease
